@@ -76,6 +76,40 @@ func zzDecimal(b []byte, signed bool) (valid bool, val int64) {
 	return true, val
 }
 
+// fixed-point grammar of the reference: [sign] digits '.' digits, sign only for signed types
+func zzFixedDecimal(b []byte, signed bool) (valid bool, neg bool, ip int64, fp int64, fd int) {
+	i := 0
+	if signed && len(b) > 0 && (b[0] == '+' || b[0] == '-') {
+		neg = b[0] == '-'
+		i = 1
+	}
+	nd := 0
+	for ; i < len(b) && b[i] >= '0' && b[i] <= '9'; i++ {
+		ip = ip*10 + int64(b[i]-'0')
+		nd++
+	}
+	if nd == 0 || i >= len(b) || b[i] != '.' {
+		return false, false, 0, 0, 0
+	}
+	i++
+	for ; i < len(b) && b[i] >= '0' && b[i] <= '9'; i++ {
+		fp = fp*10 + int64(b[i]-'0')
+		fd++
+	}
+	if fd == 0 || i != len(b) {
+		return false, false, 0, 0, 0
+	}
+	return true, neg, ip, fp, fd
+}
+
+func zzPow10i(n int) int64 {
+	r := int64(1)
+	for i := 0; i < n; i++ {
+		r *= 10
+	}
+	return r
+}
+
 func zzFromStringCheck(typeName string, b []byte, signed bool, min, max int64) {
 	s := string(b)
 	out := zzCatch(func() any { return StringValueParsers[typeName].Parser(nil, s) })
@@ -146,4 +180,54 @@ func ZZ_C17_FromString_Unsigned_LLEN() {
 	default:
 		zzFromStringCheck("Word256", b, false, 0, 1000)
 	}
+}
+
+//verif:harness property=C17 mode=bv bigw=320 unwind=60 lens=0..4 steps=30000000 stubs=metering
+func ZZ_C17_FromString_Fixed_LLEN() {
+	b := zzNondetBytes(LEN)
+	s := string(b)
+	var name string
+	var signed bool
+	scale := 8
+	switch zzChoice(4) {
+	case 0:
+		name, signed = "Fix64", true
+	case 1:
+		name, signed = "UFix64", false
+	case 2:
+		name, signed, scale = "Fix128", true, 24
+	default:
+		name, signed, scale = "UFix128", false, 24
+	}
+	out := zzCatch(func() any { return StringValueParsers[name].Parser(nil, s) })
+	zzAssert("no-crash", !out.Panicked)
+	if out.Panicked {
+		return
+	}
+	valid, neg, ip, fp, fd := zzFixedDecimal(b, signed)
+	some, accepted := out.Value.(*SomeValue)
+	zzKnownFinding("C17-unsigned-fixed-fromString-accepts-plus", !signed && len(b) > 0 && b[0] == '+')
+	zzAssert("accepted-iff-fixed-point-literal", accepted == valid)
+	if !accepted || !valid {
+		return
+	}
+	// exact raw value: +-(ip*10^scale + fp*10^(scale-fd)); strings of <= 4 bytes are always in range
+	mag := new(big.Int).Add(
+		new(big.Int).Mul(big.NewInt(ip), new(big.Int).Exp(big.NewInt(10), big.NewInt(int64(scale)), nil)),
+		new(big.Int).Mul(big.NewInt(fp), new(big.Int).Exp(big.NewInt(10), big.NewInt(int64(scale-fd)), nil)))
+	if neg {
+		mag = new(big.Int).Neg(mag)
+	}
+	var got *big.Int
+	switch v := some.value.(type) {
+	case Fix64Value:
+		got = big.NewInt(int64(v))
+	case UFix64Value:
+		got = new(big.Int).SetUint64(uint64(v.UFix64Value))
+	case Fix128Value:
+		got = v.ToBigInt()
+	case UFix128Value:
+		got = v.ToBigInt()
+	}
+	zzAssert("parsed-value", got != nil && got.Cmp(mag) == 0)
 }
